@@ -80,10 +80,15 @@ def history_case(ops, initial, tag, tail):
     L = ['DECLARE line : STRING', 'DECLARE rec : STRING']
     for op in ops: L += render(op)
     if tail == 'error': L += ['OUTPUT 1 / 0']
+    if tail == 'exit': L += ['EXIT', 'OUTPUT "after exit"']          # the EXIT command ends the session with handles still open
+    if tail == 'error-exit': L += ['OUTPUT 1 / 0', 'EXIT']
+    if tail == 'no-final-newline': L += ['OUTPUT "unterminated last line"']     # never executed: the session ends at end of input
     files = {}
     for f, lines in initial.items():
         files[f] = ''.join(l + '\n' for l in lines).encode()
-    return Case(mode='repl', stdin=gen.join(L), files=files,
+    stdin = gen.join(L)
+    if tail == 'no-final-newline': stdin = stdin[:-1]
+    return Case(mode='repl', stdin=stdin, files=files,
                 meta=dict(gen='history-' + tag, ops=[list(o) for o in ops], initial=initial, tail=tail, sample=tag == 'random'))
 
 def file_mode_case(ops, initial, tail):
@@ -105,12 +110,12 @@ def generate(tier, rng):
     lim = 500 if tier == 'quick' else 8000
     if len(hs) > lim: hs = rng.sample(hs, lim)
     for h in hs:
-        cases.append(history_case(list(h), initial if rng.random() < 0.7 else {}, 'exhaustive', 'normal'))
+        cases.append(history_case(list(h), initial if rng.random() < 0.7 else {}, 'exhaustive', rng.choice(['normal', 'normal', 'exit', 'error-exit', 'no-final-newline'])))
     A2 = alphabet(NAMES)
     for k in range(80 if tier == 'quick' else 1000):
         ops = [rng.choice(A2) for _ in range(rng.randint(3, 40))]
         init = rng.choice([{}, {'x.txt': ['a']}, {'x.txt': ['a', 'b'], 'y.txt': []}])
-        cases.append(history_case(ops, init, 'random', rng.choice(['normal', 'error'])))
+        cases.append(history_case(ops, init, 'random', rng.choice(['normal', 'error', 'exit', 'error-exit', 'no-final-newline'])))
         # file-mode variant made only of legal steps, ending normally, by error, or without closing
         spec = Spec(init); legal = []
         for op in ops:
